@@ -6,7 +6,8 @@ use crate::hast::{H, hb};
 use crate::props::c08::map_h;
 use crate::util::Rng;
 
-pub const KINDS: [&str; 16] = [
+pub const KINDS: [&str; 17] = [
+    "reference-group-definition",
     "literal-kind",
     "drop-argument",
     "duplicate-argument",
@@ -43,7 +44,77 @@ fn wrong(r: &mut Rng) -> H {
 }
 
 // Apply one perturbation at a random node where it is applicable. Returns the kind used.
+// Replace an integer literal inside a definition of a group by a variable naming a definition of
+// the same (flattened) group: aimed at the definition-order check (self and forward references,
+// directly or through a function of the group).
+fn reference_group_definition(h: &H, r: &mut Rng) -> Option<H> {
+    // collect groups: (names of the flattened group)
+    let mut groups: Vec<Vec<String>> = vec![];
+    crate::props::c08::walk(h, &mut |x| {
+        if let H::Let(..) = x {
+            let mut names = vec![];
+            let mut cur = x;
+            while let H::Let(n, _, _, b) = cur.strip() {
+                names.push(n.clone());
+                cur = b;
+            }
+            groups.push(names);
+        }
+    });
+    if groups.is_empty() {
+        return None;
+    }
+    let names = groups[r.usize(groups.len())].clone();
+    let target_def = names[r.usize(names.len())].clone();
+    let replacement = names[r.usize(names.len())].clone();
+    // rewrite the first literal found inside the definition of `target_def`
+    let mut done = false;
+    fn go(h: &H, target_def: &str, replacement: &str, inside: bool, done: &mut bool) -> H {
+        if *done {
+            return h.clone();
+        }
+        match h {
+            H::Lit(_) if inside => {
+                *done = true;
+                H::var(replacement)
+            }
+            H::Let(n, a, d, b) => {
+                let d2 = go(d, target_def, replacement, inside || n == target_def, done);
+                let b2 = go(b, target_def, replacement, inside, done);
+                H::Let(n.clone(), a.clone(), hb(d2), hb(b2))
+            }
+            H::Lam(n, i, d, b) => H::Lam(n.clone(), *i, d.clone(), hb(go(b, target_def, replacement, inside, done))),
+            H::App(a, b) => {
+                let a2 = go(a, target_def, replacement, inside, done);
+                let b2 = go(b, target_def, replacement, inside, done);
+                H::App(hb(a2), hb(b2))
+            }
+            H::Bin(op, a, b) => {
+                let a2 = go(a, target_def, replacement, inside, done);
+                let b2 = go(b, target_def, replacement, inside, done);
+                H::Bin(*op, hb(a2), hb(b2))
+            }
+            H::Neg(a) => H::Neg(hb(go(a, target_def, replacement, inside, done))),
+            H::Paren(a) => H::Paren(hb(go(a, target_def, replacement, inside, done))),
+            H::If(a, b, c) => {
+                let a2 = go(a, target_def, replacement, inside, done);
+                let b2 = go(b, target_def, replacement, inside, done);
+                let c2 = go(c, target_def, replacement, inside, done);
+                H::If(hb(a2), hb(b2), hb(c2))
+            }
+            other => other.clone(),
+        }
+    }
+    let out = go(h, &target_def, &replacement, false, &mut done);
+    if done { Some(out) } else { None }
+}
+
 pub fn perturb(h: &H, r: &mut Rng) -> Option<(H, &'static str)> {
+    if r.chance(1, 8) {
+        if let Some(x) = reference_group_definition(h, r) {
+            return Some((x, "reference-group-definition"));
+        }
+    }
     let n = count_nodes(h);
     for _ in 0..40 {
         let target = r.usize(n);
